@@ -81,6 +81,17 @@ def do_replay(path):
     return 0
 
 
+def _killpg(proc):
+    try:
+        import signal
+        os.killpg(proc.pid, signal.SIGKILL)
+    except Exception:
+        try:
+            proc.kill()
+        except Exception:
+            pass
+
+
 def main(argv):
     if len(argv) >= 3 and argv[1] == '--replay':
         return do_replay(argv[2])
@@ -120,6 +131,16 @@ def main(argv):
             cfgs = cfgs[seed % stride::stride]
         per_contract_cfgs[name] = len(cfgs)
         tasks += [(name, cfg) for cfg in cfgs]
+    # the bit-operation lemmas B1-B4 (Python ints = mathematical integers in two's complement) are proved in Lean 4 /
+    # Mathlib (lemmas/BitLemmas.lean); the file is re-checked by `lean` concurrently with the obligations of this run
+    lean_proc = None
+    lean_sh = os.path.join(HERE, 'lemmas', 'check_lemmas.sh')
+    if os.path.exists(lean_sh) and os.environ.get('FXPV_NO_LEAN') != '1':
+        try:
+            import subprocess
+            lean_proc = subprocess.Popen(['sh', lean_sh], stdout=subprocess.PIPE, stderr=subprocess.STDOUT, text=True, start_new_session=True)
+        except Exception:
+            lean_proc = None
     results = runner.run_tasks(tasks)
 
     # ---- aggregate -------------------------------------------------------------------------------------
@@ -305,6 +326,35 @@ def main(argv):
         'exhaustive': bool(bounded_only and tier == 'thorough' and prop == 'C12'),
         'explanation': 'contract-based deductive verification: %d obligations, %d discharged, %d undecided (see undecided_samples); level is "other" whenever something is undecided' % (obligations, discharged, undecided + len(undecided_paths)),
     }
+    # B-lemmas: machine-checked in this run -> no longer assumptions (what stays assumed: CPython's int operators
+    # & | ^ ~ >> << are the two's-complement operations on mathematical integers that Lean's Int.land/lor/xor/not/shift define)
+    lean_map = {'B1:': 'and_mask', 'B1b:': 'and_pow', 'B2:': 'or_neg_pow', 'B3:': 'shr_eq_div / shl_eq_mul',
+                'B4:': 'and_range / or_range / xor_range / compl_in_width / testBit_and / testBit_or / testBit_xor / testBit_iff_digit'}
+    used_b = sorted(a for a in assumed if a.split(' ')[0] in lean_map)
+    lean_info = None
+    if used_b:
+        lean_ok, lean_out, lean_s = False, 'lean not run', 0.0
+        if lean_proc is not None:
+            tl = time.time()
+            try:
+                lean_out, _ = lean_proc.communicate(timeout=int(os.environ.get('FXPV_LEAN_TIMEOUT', '420')))
+                lean_ok = lean_proc.returncode == 0
+            except Exception as e:
+                _killpg(lean_proc); lean_out = 'lean did not finish: %s' % e
+            lean_s = time.time() - tl
+        src = open(os.path.join(HERE, 'lemmas', 'BitLemmas.lean')).read() if os.path.exists(os.path.join(HERE, 'lemmas', 'BitLemmas.lean')) else ''
+        proved = {a: lean_map[a.split(' ')[0]] for a in used_b
+                  if lean_ok and all(('theorem ' + t.strip()) in src for t in lean_map[a.split(' ')[0]].split('/'))}
+        lean_info = {'file': 'lemmas/BitLemmas.lean', 'checker': 'lean 4 + Mathlib (lemmas/check_lemmas.sh)', 'checked_in_this_run': bool(lean_ok),
+                     'extra_wait_s': round(lean_s, 1), 'lemmas_used_and_proved': proved,
+                     'output_tail': (lean_out or '')[-300:]}
+        if proved:
+            assumed = {a for a in assumed if a not in proved}
+            assumed.add('CPython int operators & | ^ ~ >> << are the two\'s-complement operations on mathematical integers (Lean: Int.land/lor/xor, ~~~, >>>, <<<); the B-lemmas about them are proved in lemmas/BitLemmas.lean')
+    elif lean_proc is not None:
+        _killpg(lean_proc)
+    if lean_info:
+        cov['lemmas_machine_checked'] = lean_info
     evidence.update(level=level, coverage=cov, assumptions=sorted(assumed), wall_s=round(wall, 2), violations=violations)
     evdir = os.environ.get('FXPV_EVIDENCE_DIR') or os.path.join(HERE, 'evidence')      # the override is for tools/seedcheck.py only (runs on a changed scratch tree)
     os.makedirs(evdir, exist_ok=True)
